@@ -674,6 +674,8 @@ def gen_c09(seed, shipped, tier="quick"):
             "hashseed": h, "enum_seed": e, "io_seed": rng.randrange(1 << 30), "env_seed": rng.randrange(1, 1 << 30), "io": io_knobs(rng),
             "env": {"LC_ALL": rng.choice([None, "C", "C.UTF-8"]), "opt": rng.choice(["", "", "-O"]), "vars": env_vars(rng)},
             "default_ctor": rng.random() < 0.5,
+            # interpreter state a result must not depend on: collector on/off/eager, recursion limit
+            "runtime": {"gc": rng.choice(["default", "default", "off", "aggressive"]), "recursion_limit": rng.choice([None, None, 800, 3000])},
             "kwdir_form": rng.choice(KWDIR_FORMS),
             "lib_sched": lib_sched_spec(rng),
             "ops": ops,
